@@ -1014,7 +1014,8 @@ class ComplexGammatoneFilterBank(LinearFilterBank):
         log_factorial = np.log(math.factorial(order - 1))
         log_2 = np.log(2)
         if erb:
-            alpha_const = log_2 * (2 * order - 1)
+            # ERB = pi * alpha * (2n - 2)! / (2 ** (2n - 2) * (n - 1)! ** 2)
+            alpha_const = log_2 * (2 * order - 2) - np.log(np.pi)
             alpha_const += 2 * log_factorial
             alpha_const -= log_double_factorial
         else:
